@@ -124,6 +124,60 @@ Proof.
     unfold pending. destruct (rdwait s'); [lia|]. cbn. rewrite !orb_true_r. reflexivity.
 Qed.
 
+(* DropPrefix racing a commit: a deadlock that does not involve Close *)
+Definition st_drop_hang : st :=
+  match exec false cfgW (init cfgW) sched_drop_hang with Some s => s | None => init cfgW end.
+
+Lemma drop_hang_exec : exec false cfgW (init cfgW) sched_drop_hang = Some st_drop_hang.
+Proof. vm_compute. reflexivity. Qed.
+
+Definition drop_stuck (s : st) : Prop :=
+  drp s = DView /\ dkind s = true /\ w s = WExited /\ bw s = true /\ 1 <= wch s.
+
+Lemma drop_stuck_step : forall strict c s l s', drop_stuck s -> step strict c s l = Some s' -> drop_stuck s'.
+Proof.
+  intros strict c s l s' (Hd & Hk & Hw & Hb & Hn) Hs. unfold step in Hs.
+  destruct (crashed s); [discriminate|]. destruct s. unfold crash, drop_stuck, inflight_ts, reqs in *. cbn in *. subst.
+  destruct l; cbn in Hs; destr_step Hs; try discriminate Hs; try (injection Hs as <-); cbn; repeat split; auto; try lia.
+  all: exfalso; repeat match goal with
+       | H : _ && _ = true |- _ => apply andb_true_iff in H; destruct H
+       | H : (_ =? 0) = true |- _ => apply Nat.eqb_eq in H
+       end; lia.
+Qed.
+
+Lemma drop_stuck_exec : forall strict c ls s s', drop_stuck s -> exec strict c s ls = Some s' -> drop_stuck s'.
+Proof.
+  intros strict c ls. induction ls as [|l r IH]; intros s s' Ho He; cbn in He.
+  - injection He as <-. assumption.
+  - destruct (step strict c s l) as [s1|] eqn:E; [|discriminate].
+    eapply IH; [|eassumption]. eapply drop_stuck_step; eassumption.
+Qed.
+
+(* reachable, Close never called, a Commit and the DropPrefix pending, no work transition enabled,
+   and on every continuation DropPrefix is still waiting in its View and the request still queued *)
+Theorem drop_race_hang :
+  reach false cfgW st_drop_hang /\ clo st_drop_hang = CNot /\ crashed st_drop_hang = false /\
+  pending st_drop_hang = true /\ drp st_drop_hang = DView /\ o_hung_commit (observe st_drop_hang) = 1 /\
+  (forall l, work l = true -> step false cfgW st_drop_hang l = None) /\
+  (forall ls s', exec false cfgW st_drop_hang ls = Some s' -> drp s' = DView /\ 1 <= wch s' /\ pending s' = true).
+Proof.
+  split. { eapply exec_reach; [constructor | apply drop_hang_exec]. }
+  split. { vm_compute. reflexivity. }
+  split. { vm_compute. reflexivity. }
+  split. { vm_compute. reflexivity. }
+  split. { vm_compute. reflexivity. }
+  split. { vm_compute. reflexivity. }
+  split.
+  - intros l Hw. destruct l; try discriminate Hw; try (match goal with b : bool |- _ => destruct b end); vm_compute; reflexivity.
+  - intros ls s' He. assert (Ho : drop_stuck st_drop_hang) by (vm_compute; repeat split; lia).
+    destruct (drop_stuck_exec _ _ _ _ _ Ho He) as (Hd & _ & _ & _ & Hn). split; [assumption|]. split; [assumption|].
+    unfold pending. rewrite Hd. cbn. rewrite !orb_true_r. reflexivity.
+Qed.
+
+Lemma drop_excluded_by_h3 : exec true cfgW (init cfgW) [E_commit; L_acq; H_ts; H_check; E_drop true] = None
+  /\ exec true cfgW (init cfgW) [E_commit; L_acq; H_ts; H_check] <> None.
+Proof. split; vm_compute; [reflexivity | discriminate]. Qed.
+
 (* the full-strength statement is false of the code as written *)
 Theorem no_stuck_state_refuted :
   ~ (forall c s, cfg_ok c -> reach false c s -> pending s = true ->
